@@ -60,7 +60,7 @@ type Driver struct{ V Variant }
 func New(v Variant) func() (*mc.Env, mc.Driver) {
 	return func() (*mc.Env, mc.Driver) {
 		rich := mc.Big(135)
-		coins := sdk.NewCoins(mc.CI(std, rich), mc.CI("btc", rich), mc.CI("eth", rich), mc.CI("usdt", rich), mc.CI("dai", rich))
+		coins := sdk.NewCoins(mc.CI(std, rich), mc.CI("btc", rich), mc.CI("eth", rich), mc.CI("usdt", rich), mc.CI("ada", rich))
 		e := mc.NewEnv(mc.EnvOptions{Balances: map[string]sdk.Coins{"A": coins, "B": coins, "C": coins, "R": nil}})
 		return e, &Driver{V: v}
 	}
@@ -147,6 +147,17 @@ func (d *Driver) Enabled(e *mc.Env, s *mc.State) []mc.Op {
 		}
 		for i, a := range d.V.Amts {
 			add(fmt.Sprintf("addliq(B,btc,a%d)", i), opData{kind: "addliq", who: "B", pool: "btc", amt: a, bound: "loose"})
+		}
+		// the user's bounds sit where the rounding happens: the same liquidity messages with the bound exactly met
+		// and missed by one (learned on a throw-away branch)
+		for _, k := range []string{"addliq", "uniadd", "unirm", "rmliq"} {
+			who := "B"
+			if k == "rmliq" || k == "unirm" {
+				who = "A"
+			}
+			for _, b := range []string{"exact", "miss1"} {
+				add(fmt.Sprintf("%s(%s,btc,a2,bound=%s)", k, who, b), opData{kind: k, who: who, pool: "btc", side: "btc", amt: d.V.Amts[2], bound: b})
+			}
 		}
 		add("rmliq(A,btc,a0)", opData{kind: "rmliq", who: "A", pool: "btc", amt: d.V.Amts[0], bound: "loose"})
 		add("rmliq(A,btc,all-1)", opData{kind: "rmliq", who: "A", pool: "btc", allBut1: true, bound: "loose"})
@@ -235,10 +246,8 @@ func (d *Driver) Enabled(e *mc.Env, s *mc.State) []mc.Op {
 		add(fmt.Sprintf("%s(%s,btc,deadline=past)", k, who), v)
 	}
 	add("rmliq(A,btc,all)", opData{kind: "rmliq", who: "A", pool: "btc", all: true, bound: "loose"})
-	newDenom := "usdt"
-	if d.hasPool3() {
-		newDenom = "dai"
-	}
+	// a denom that sorts BEFORE the fixture pools' (the newest pool is then not the last one in denom order)
+	newDenom := "ada"
 	add("addliq(C,"+newDenom+",new-pool)", opData{kind: "addliq", who: "C", pool: newDenom, amt: a, bound: "loose"})
 	return ops
 }
@@ -253,7 +262,7 @@ func addrOf(name string) sdk.AccAddress {
 func (d *Driver) universe(e *mc.Env, s *mc.State) mc.Universe {
 	u := mc.Universe{"A": mc.Addr("A"), "B": mc.Addr("B"), "C": mc.Addr("C"), "R": mc.Addr("R"),
 		"feecollector": mc.ModuleAddr(authtypes.FeeCollectorName), "module": mc.ModuleAddr(cstypes.ModuleName)}
-	for _, cp := range []string{"btc", "eth", "usdt", "dai"} {
+	for _, cp := range []string{"btc", "eth", "usdt", "ada"} {
 		if _, esc, ok := lptOf(e, s, cp); ok {
 			u["pool-"+cp] = esc
 		}
@@ -406,7 +415,7 @@ func (d *Driver) apply(e *mc.Env, s *mc.State, op mc.Op) []mc.Finding {
 	}
 
 	pre := map[string]poolObs{}
-	for _, cp := range []string{"btc", "eth", "usdt", "dai"} {
+	for _, cp := range []string{"btc", "eth", "usdt", "ada"} {
 		if o, ok := d.obs(e, s, cp); ok {
 			pre[cp] = o
 		}
@@ -598,7 +607,7 @@ func (d *Driver) settlement(e *mc.Env, s *mc.State, od opData, mt string, got mc
 		fs = append(fs, mc.F("C02/"+rule+"/"+mt, format, a...))
 	}
 	lptDenoms := map[string]string{}
-	for _, cp := range []string{"btc", "eth", "usdt", "dai"} {
+	for _, cp := range []string{"btc", "eth", "usdt", "ada"} {
 		if l, _, ok := lptOf(e, s, cp); ok {
 			lptDenoms[cp] = l
 		}
@@ -713,7 +722,7 @@ func (d *Driver) settlement(e *mc.Env, s *mc.State, od opData, mt string, got mc
 
 func (d *Driver) Check(e *mc.Env, s *mc.State) []mc.Finding {
 	n := 0
-	for _, cp := range []string{"btc", "eth", "usdt", "dai"} {
+	for _, cp := range []string{"btc", "eth", "usdt", "ada"} {
 		if o, ok := d.obs(e, s, cp); ok && o.L.Sign() > 0 {
 			n++
 		}
